@@ -103,6 +103,28 @@ CLAIMED = {
              'succeeds); files that cannot reach a cycle are final exactly once in that run; acyclic projects never fail. Lemma on the real '
              'code: a self-including file reports itself as dependency.',
         ref='DESIGN.md 5 (C05)', note='as C02', technique='symbolic execution of rustc MIR with a scheduler model (task completion order, dependency digraph and failures as fork points of the environment), native replay with forced timing'),
+    'C11': dict(
+        text='Bounded symbolic model checking of the real code: (1) is_txtpp_file / remove_txtpp / get_txtpp_file from MIR on every file name '
+             'over {a . t x p} up to the bound against the naming rules (with a symbolic which-candidates-exist oracle and the round trip); '
+             '(2) the real Txtpp::run (resolve_inputs, scan_dir, execute_directory, dedup) on symbolic directory trees and input lists: '
+             'the processed set equals the specified one, missing targets fail, every source is processed once.',
+        ref='DESIGN.md 5 (C11)', note='D9: names with empty dot-separated components and x.txtpp.txtpp are outside the domain; no symlinks; '
+             'selection runs under one fixed schedule (order independence is C03)',
+        technique='symbolic execution of rustc MIR + SMT (z3, cvc5 cross-check), native replay'),
+    'C17': dict(
+        text='Bounded symbolic model checking of the real code: preprocess -> execute_directive(Run) -> Shell::run / Shell::new with a recording '
+             'process model for sources at depth 0-3 and process cwd equal / ancestor / unrelated to the base directory: program, arguments, '
+             'joined command, working directory, TXTPP_FILE, status handling; real main() from the bin MIR on an arbitrary parsed Cli: '
+             'TXTPP_FILE guard, flag mapping (-N, -n, -j, -r, sub-commands), Err => FAILURE.',
+        ref='DESIGN.md 5 (C17), 6 (F3 fixed)', note='clap parsing itself is outside the claim; std::process is a recording contract model',
+        technique='symbolic execution of rustc MIR (lib + bin) + SMT (z3, cvc5 cross-check), native replay through the library entry point'),
+    'C18': dict(
+        text='Bounded symbolic model checking of the real code: every MIR assert / unreachable / panic call and every std-model precondition is an '
+             'error state; leaf functions on raw bytes with non-ASCII characters at every position, the real preprocess on arbitrary byte '
+             'files / included files / pre-existing files in all four modes, Txtpp::run with 0..16 threads, and workers outliving a failed '
+             'run; coordinator hangs are C03.',
+        ref='DESIGN.md 5 (C18), 6 (F1 fixed)', note='panics inside std that the contract models do not describe are invisible to the MIR engine; '
+             'bounded sizes; no resource exhaustion', technique='symbolic execution of rustc MIR + SMT (z3, cvc5 cross-check), native replay'),
 }
 
 PENDING_REASON = 'check not built yet in this revision (under construction, see DESIGN.md 9); nothing is claimed'
